@@ -359,6 +359,21 @@ def run(facts, res):
                 allowed = {"clear": ("commit", "unstage"), "or-arg": ("unvalidated_add", "new"), "set": ()}
                 ok = kind is not None and b.name in allowed.get(kind, ())
                 res.instance("G5", "%s writes %s.staging: %s" % (b.path, lp["of"].rsplit("::", 1)[-1], kind), b.loc(stt.line))
+                if ok and kind == "or-arg" and lp.get("of") == "revisiontree::RevisionTree" and b.impl_adt == "revisiontree::RevisionTree":
+                    # the tree-level flag is raised only for a revision that is actually inserted (behind the absence test):
+                    # raised for a duplicate, has_staging() answers true although nothing is staged and the next commit
+                    # writes an empty block (C04: committing when nothing changed writes nothing)
+                    behind_absent = any(
+                        (l.kind == "call" and callee_name(l.term) == "contains_key" and l.truth is False and "revisions" in field_path(l.term[2][0])[0]) or
+                        (l.kind == "variant" and l.variants == {"Vacant"}) or
+                        (l.kind == "variant" and l.variants == {"None"} and peel(l.term)[0] == "call" and callee_name(peel(l.term)) in ("get", "insert") and
+                         "revisions" in field_path(peel(l.term)[2][0])[0])
+                        for l in lits_of(b, blk.idx, facts))
+                    res.instance("G5", "%s raises the tree's staging flag only behind the absence test of the revision: %s" % (b.path, behind_absent), b.loc(stt.line))
+                    if not behind_absent:
+                        res.violation("G5", "%s|tree-flag-raised-without-insertion" % b.path,
+                                      "%s raises the tree's staging flag before / without knowing that the revision is new: re-adding a known revision with "
+                                      "staging = true leaves has_staging() true with nothing staged, so an unchanged document is committed as an empty block" % b.path, b.loc(stt.line))
                 if not ok:
                     res.violation("G5", "%s|staging-flag-write:%s" % (b.path, kind), "%s writes the staging flag (%s); only insertion may set it (or-ing the argument) and only commit / unstage may clear it" % (b.path, kind), b.loc(stt.line))
     for b in facts.repo_bodies():
